@@ -41,9 +41,59 @@ pub fn crc24q(data: &[u8]) -> u32 {
 pub fn self_check() {
     // catalogue check value of CRC-24/LTE-A ("123456789")
     assert_eq!(crc24q_bitwise(b"123456789"), 0xCDE703, "reference CRC-24Q self check");
+    for t in [0u32, 1, 0xFFFFFF, 0xD30000, 0x123456] {
+        let pre = [0xD3u8, 0x00, 0x07, 1, 2, 3, 4];
+        let tail = tail_for_crc(&pre, t);
+        let mut all = pre.to_vec();
+        all.extend_from_slice(&tail);
+        assert_eq!(crc24q_bitwise(&all), t, "tail_for_crc self check");
+    }
     let mut x = 12345u64;
     for n in 0..64usize {
         let v: Vec<u8> = (0..n * 5).map(|_| crate::rng::splitmix(&mut x) as u8).collect();
         assert_eq!(crc24q(&v), crc24q_bitwise(&v));
     }
+}
+
+/// three bytes x such that crc24q(prefix ++ x) == target. The CRC is affine in x: crc(prefix ++ x) = crc(prefix ++ 000) ^ L(x)
+/// with L(x) = crc24q(x) a linear bijection on 24 bits; L is inverted once by Gaussian elimination over GF(2).
+pub fn tail_for_crc(prefix: &[u8], target: u32) -> [u8; 3] {
+    let mut zeros = prefix.to_vec();
+    zeros.extend_from_slice(&[0, 0, 0]);
+    let a = crc24q(&zeros);
+    let want = (target ^ a) & 0xFFFFFF;
+    let inv = l_inverse();
+    let mut x: u32 = 0;
+    for bit in 0..24 {
+        if (want >> bit) & 1 == 1 {
+            x ^= inv[bit];
+        }
+    }
+    [(x >> 16) as u8, (x >> 8) as u8, x as u8]
+}
+/// inv[i] = L^-1(e_i)
+fn l_inverse() -> &'static [u32; 24] {
+    use std::sync::OnceLock;
+    static I: OnceLock<[u32; 24]> = OnceLock::new();
+    I.get_or_init(|| {
+        // rows: (L(e_j), e_j); eliminate to get (e_i, L^-1(e_i))
+        let mut rows: Vec<(u32, u32)> = (0..24).map(|j| { let x = 1u32 << j; (crc24q(&[(x >> 16) as u8, (x >> 8) as u8, x as u8]), x) }).collect();
+        let mut inv = [0u32; 24];
+        for bit in 0..24 {
+            let p = (bit..24).find(|r| (rows[*r].0 >> bit) & 1 == 1).expect("CRC map is a bijection");
+            rows.swap(bit, p);
+            let (pv, px) = rows[bit];
+            for r in 0..24 {
+                if r != bit && (rows[r].0 >> bit) & 1 == 1 {
+                    rows[r].0 ^= pv;
+                    rows[r].1 ^= px;
+                }
+            }
+        }
+        for bit in 0..24 {
+            debug_assert_eq!(rows[bit].0, 1 << bit);
+            inv[bit] = rows[bit].1;
+        }
+        inv
+    })
 }
